@@ -282,6 +282,10 @@ def main_c06(tier):
         from checks.emu_models import run_extra as rx
         rx(ck, bdir, sys2({"O", "K", mc}), hsts, "C06/%s.%s(%s)" % (model, chan, mode))
     ck.phase("per_channel")
+    # recorded executions: the traces of the repository's own emu-* tests, validated event by event
+    from checks import suite_traces
+    suite_traces.run(ck, tier)
+    ck.phase("suite_traces")
     ck.assumptions += ["task, mark and breakdown channels are exercised by C07, C17, C20 with the same view oracle"]
     return ck.finish(rule="histories = transition cover of the bounded view model (TLC) + the accepted ones "
                           "re-instantiated for every published channel of every model; non-trivial = at least 3 "
